@@ -179,10 +179,15 @@ func genDSLModel(r *rng) *Model {
 }
 
 func genModuleSet(r *rng, wantConflicts int) *wlMerge {
+	return genModuleSetOpt(r, wantConflicts, false)
+}
+
+// genModuleSetOpt with crowd: always many files, colliding names likely.
+func genModuleSetOpt(r *rng, wantConflicts int, crowd bool) *wlMerge {
 	m := genDSLModel(r)
 	wl := &wlMerge{Variant: "base", Schema: []string{"1.2", "1.1", "1.2", "2.0-x"}[r.intn(4)]}
 	nmod := 1 + r.intn(4)
-	many := r.chance(5) // 8-16 files: beyond "a handful" thresholds
+	many := r.chance(5) || crowd // 8-16 files: beyond "a handful" thresholds
 	if many {
 		nmod = 4 + r.intn(3)
 	}
@@ -197,7 +202,7 @@ func genModuleSet(r *rng, wantConflicts int) *wlMerge {
 			if j > 0 || r.chance(30) {
 				name = fmt.Sprintf("%s/%c.fga", modNames[i], 'a'+j)
 			}
-			if many && j > 0 && r.chance(15) {
+			if many && j > 0 && (r.chance(15) || crowd && r.chance(30)) {
 				name = modNames[i] + ".fga" // base names collide: two files under one name
 			}
 			files = append(files, &PFile{Name: name, Kind: "module", Module: modNames[i], Layout: []string{"", "", "", "", "wide", "tabs", "mixed"}[r.intn(7)]})
